@@ -340,7 +340,7 @@ theorem unauthenticated_session_is_inert (cfg : Cfg C) (inputs : List (Env × In
 
 end
 
-/-! ## round 4: several sessions with the same peer — the reflection finding (F9)
+/-! ## round 4: several sessions with the same peer — the reflection finding (F11)
 
 `wrong_cookie_never_authenticated` above is about ONE session and assumes (`hpeer`) that the peer
 computed every digest it sends itself. `Model/MultiSession.lean` drops both restrictions: any
@@ -519,7 +519,7 @@ theorem retracted_pid_is_not_reachable (cfg : Cfg C) (st : SState D) (env env' :
 
 end
 
-/-! ### the witness: the full statement is FALSE of the code (finding F9) -/
+/-! ### the witness: the full statement is FALSE of the code (finding F11) -/
 
 section
 open Multi
@@ -531,7 +531,7 @@ def envR (fresh : Nat) : Env :=
   { check := .noOther, elected := true, fresh := fresh, localPids := [3], groups := [],
     remotable := fun p => p == 3, sessions := some [] }
 
-/-- The relay of `corpus/C17/e-lts-f9-reflection-inbound-outbound.ops`: session 0 is inbound
+/-- The relay of `corpus/C17/e-lts-f11-reflection-inbound-outbound.ops`: session 0 is inbound
 (server-side), session 1 outbound (client-side); the node draws the challenges 5 (on 0) and 6 (on 1);
 the peer hands challenge 5 back on session 1, copies the node's answer `H 7 5` to session 0 and the
 node's `ChallengeAck` `H 7 6` to session 1; then casts to the advertised actor 3 on session 0. -/
